@@ -113,6 +113,169 @@ Lemma cacheable_text_confusion_refuted :
   exists r1 r2, r1 <> r2 /\ get_key r1 = get_key r2 /\ texts r1 = texts r2.
 Proof. exists [PStr "x"], [PKey "x"]. repeat split; try reflexivity. discriminate. Qed.
 
+(* ------------------------------ requests with an EnforceContext --------------------- *)
+
+Lemma strip_prefix_app : forall p s, strip_prefix p (p ++ s) = Some s.
+Proof.
+  induction p as [|c p IH]; intro s; cbn [append strip_prefix]; [reflexivity|].
+  now rewrite Ascii.eqb_refl.
+Qed.
+
+Lemma split_dash_app : forall a rest, dash_free a = true ->
+  split_dash (a ++ "-" ++ rest) = Some (a, rest).
+Proof.
+  induction a as [|c a IH]; intros rest H.
+  - reflexivity.
+  - cbn [dash_free] in H. apply andb_true_iff in H. destruct H as [Hc Ha].
+    apply negb_true_iff in Hc. cbn [append split_dash]. rewrite Hc.
+    change (a ++ String "-" rest) with (a ++ "-" ++ rest). now rewrite (IH rest Ha).
+Qed.
+
+Lemma strip_brace_app : forall d, strip_brace (d ++ "}") = Some d.
+Proof.
+  induction d as [|c d IH].
+  - reflexivity.
+  - cbn [append strip_brace]. now rewrite IH.
+Qed.
+
+(* a context whose first three names are dash-free is read back from its key text *)
+Lemma parse_ctx_text : forall a b c d,
+  dash_free a = true -> dash_free b = true -> dash_free c = true ->
+  parse_ctx (ctx_text a b c d) = Some (a, b, c, d).
+Proof.
+  intros a b c d Ha Hb Hc. unfold parse_ctx, ctx_text.
+  rewrite strip_prefix_app, (split_dash_app a _ Ha), (split_dash_app b _ Hb), (split_dash_app c _ Hc).
+  now rewrite strip_brace_app.
+Qed.
+
+Lemma some_inj : forall (A : Type) (x y : A), Some x = Some y -> x = y.
+Proof. intros A x y H. congruence. Qed.
+
+Lemma ptext_injective_ok : forall p q, ctx_param_ok p = true -> ctx_param_ok q = true ->
+  ptext p = ptext q -> p = q.
+Proof.
+  intros p q Hp Hq E.
+  destruct p as [s|a b c d|t|l|n]; try discriminate Hp;
+  destruct q as [s'|a' b' c' d'|t'|l'|n']; try discriminate Hq; cbn [ptext ctx_param_ok] in *.
+  - now injection E as ->.
+  - apply some_inj in E. apply andb_true_iff in Hp. destruct Hp as [_ Hp]. apply negb_true_iff in Hp.
+    apply andb_true_iff in Hq. destruct Hq as [Hq _]. apply andb_true_iff in Hq. destruct Hq as [Hq Hc'].
+    apply andb_true_iff in Hq. destruct Hq as [Ha' Hb'].
+    unfold ctx_shaped in Hp. rewrite E, (parse_ctx_text _ _ _ _ Ha' Hb' Hc') in Hp. discriminate.
+  - apply some_inj in E. apply andb_true_iff in Hq. destruct Hq as [_ Hq]. apply negb_true_iff in Hq.
+    apply andb_true_iff in Hp. destruct Hp as [Hp _]. apply andb_true_iff in Hp. destruct Hp as [Hp Hc].
+    apply andb_true_iff in Hp. destruct Hp as [Ha Hb].
+    unfold ctx_shaped in Hq. rewrite <- E, (parse_ctx_text _ _ _ _ Ha Hb Hc) in Hq. discriminate.
+  - apply some_inj in E.
+    apply andb_true_iff in Hp. destruct Hp as [Hp _]. apply andb_true_iff in Hp. destruct Hp as [Hp Hc].
+    apply andb_true_iff in Hp. destruct Hp as [Ha Hb].
+    apply andb_true_iff in Hq. destruct Hq as [Hq _]. apply andb_true_iff in Hq. destruct Hq as [Hq Hc'].
+    apply andb_true_iff in Hq. destruct Hq as [Ha' Hb'].
+    apply (f_equal parse_ctx) in E.
+    rewrite (parse_ctx_text _ _ _ _ Ha Hb Hc), (parse_ctx_text _ _ _ _ Ha' Hb' Hc') in E.
+    now injection E as -> -> -> ->.
+Qed.
+
+Lemma ctx_param_ok_text : forall p, ctx_param_ok p = true ->
+  exists t, ptext p = Some t /\ sep_safe t = true.
+Proof.
+  intros [s|a b c d|t|l|n] H; try discriminate H; cbn [ctx_param_ok ptext] in *.
+  - apply andb_true_iff in H. destruct H as [H _]. eauto.
+  - apply andb_true_iff in H. destruct H as [_ H]. eauto.
+Qed.
+
+Lemma ctx_req_texts : forall r, ctx_req r = true ->
+  exists l, texts r = Some l /\ forallb sep_safe l = true.
+Proof.
+  induction r as [|p r IH]; cbn [ctx_req forallb texts]; intro H.
+  - exists []. split; reflexivity.
+  - apply andb_true_iff in H. destruct H as [Hp Hr].
+    destruct (ctx_param_ok_text p Hp) as [t [Tp St]]. destruct (IH Hr) as [l [Tl Sl]].
+    exists (t :: l). rewrite Tp, Tl. cbn [forallb]. rewrite St, Sl. split; reflexivity.
+Qed.
+
+Lemma texts_injective_ok : forall r1 r2, ctx_req r1 = true -> ctx_req r2 = true ->
+  texts r1 = texts r2 -> r1 = r2.
+Proof.
+  induction r1 as [|p r1 IH]; intros [|q r2] H1 H2 E; cbn [ctx_req forallb texts] in *.
+  - reflexivity.
+  - apply andb_true_iff in H2. destruct H2 as [Hq Hr2].
+    destruct (ctx_param_ok_text q Hq) as [t [Tq _]]. destruct (ctx_req_texts r2 Hr2) as [l [Tl _]].
+    rewrite Tq, Tl in E. discriminate.
+  - apply andb_true_iff in H1. destruct H1 as [Hp Hr1].
+    destruct (ctx_param_ok_text p Hp) as [t [Tp _]]. destruct (ctx_req_texts r1 Hr1) as [l [Tl _]].
+    rewrite Tp, Tl in E. discriminate.
+  - apply andb_true_iff in H1. destruct H1 as [Hp Hr1]. apply andb_true_iff in H2. destruct H2 as [Hq Hr2].
+    destruct (ctx_param_ok_text p Hp) as [t [Tp _]]. destruct (ctx_req_texts r1 Hr1) as [l [Tl _]].
+    destruct (ctx_param_ok_text q Hq) as [t' [Tq _]]. destruct (ctx_req_texts r2 Hr2) as [l' [Tl' _]].
+    rewrite Tp, Tl, Tq, Tl' in E. injection E as Et El.
+    assert (p = q) as -> by (apply ptext_injective_ok; [assumption|assumption|congruence]).
+    f_equal. apply IH; [assumption|assumption|congruence].
+Qed.
+
+(* key_injective_ctx: two requests made of strings and EnforceContext values (in any positions)
+   inside the guards have the same key only if they are the same request: in particular two
+   contexts that differ in ONE of RType / PType / EType / MType never share a decision, and a
+   request with a context never shares one with the plain request made of the same strings *)
+Lemma key_injective_ctx : forall r1 r2, ctx_req r1 = true -> ctx_req r2 = true ->
+  get_key r1 = get_key r2 -> r1 = r2.
+Proof.
+  intros r1 r2 H1 H2 E.
+  destruct (ctx_req_texts r1 H1) as [l1 [T1 S1]]. destruct (ctx_req_texts r2 H2) as [l2 [T2 S2]].
+  apply texts_injective_ok; [assumption|assumption|].
+  rewrite T1, T2. f_equal. exact (key_injective_texts r1 r2 l1 l2 T1 T2 S1 S2 E).
+Qed.
+
+(* each name of the context is part of the key: changing exactly one of them changes the key *)
+Lemma ctx_key_separates : forall a b c d a' b' c' d' rest,
+  ctx_req (PCtx a b c d :: rest) = true -> ctx_req (PCtx a' b' c' d' :: rest) = true ->
+  (a, b, c, d) <> (a', b', c', d') ->
+  get_key (PCtx a b c d :: rest) <> get_key (PCtx a' b' c' d' :: rest).
+Proof.
+  intros a b c d a' b' c' d' rest H1 H2 N E. apply N.
+  pose proof (key_injective_ctx _ _ H1 H2 E) as X. now injection X as -> -> -> ->.
+Qed.
+
+(* plain requests of sep_safe strings that do not spell a context text are ctx_req *)
+Lemma ctx_req_strs : forall l, forallb (fun s => sep_safe s && negb (ctx_shaped s)) l = true ->
+  ctx_req (map PStr l) = true.
+Proof. induction l as [|s l IH]; cbn; [reflexivity|]. intro H. apply andb_true_iff in H. destruct H as [-> H]. now apply IH. Qed.
+
+(* the guards are needed (variants of F21 for the context text): *)
+(* a '-' inside one of the first three names *)
+Lemma ctx_dash_collision_refuted :
+  exists r1 r2, r1 <> r2 /\ get_key r1 = get_key r2 /\
+    ctx_req r2 = true /\ (forall p, In p r1 -> match p with PCtx _ _ _ _ | PStr _ => True | _ => False end).
+Proof.
+  exists [PCtx "r" "p" "e-m" "x"; PStr "a"], [PCtx "r" "p" "e" "m-x"; PStr "a"].
+  split; [discriminate|]. split; [reflexivity|]. split; [reflexivity|].
+  intros p [<-|[<-|[]]]; exact I.
+Qed.
+
+(* a '-' in the FOURTH name is harmless, but the other three are all needed *)
+Lemma ctx_dash_each_name_refuted :
+  get_key [PCtx "a-b" "c" "d" "e"] = get_key [PCtx "a" "b-c" "d" "e"] /\
+  get_key [PCtx "a" "b-c" "d" "e"] = get_key [PCtx "a" "b" "c-d" "e"] /\
+  get_key [PCtx "a" "b" "c-d" "e"] = get_key [PCtx "a" "b" "c" "d-e"] /\
+  ctx_req [PCtx "a" "b" "c" "d-e"] = true.
+Proof. repeat split; reflexivity. Qed.
+
+(* a string that spells the key text of a context *)
+Lemma ctx_string_collision_refuted :
+  exists r1 r2, r1 <> r2 /\ get_key r1 = get_key r2 /\ ctx_req r2 = true /\ plain_req r1 = true.
+Proof.
+  exists [PStr "EnforceContext{r-p-e-m}"; PStr "a"], [PCtx "r" "p" "e" "m"; PStr "a"].
+  split; [discriminate|]. repeat split; reflexivity.
+Qed.
+
+(* "}" together with the terminator inside a name: one context reads as a context and a string *)
+Lemma ctx_brace_collision_refuted :
+  exists r1 r2, r1 <> r2 /\ get_key r1 = get_key r2 /\ ctx_req r2 = true.
+Proof.
+  exists [PCtx "r" "p" "e" "m}$$a"], [PCtx "r" "p" "e" "m"; PStr "a}"].
+  split; [discriminate|]. split; reflexivity.
+Qed.
+
 (* ------------------------------ the cache map --------------------------------------- *)
 
 Lemma lookup_delete_same : forall k c, lookup k (delete k c) = None.
@@ -588,7 +751,87 @@ Section Generic.
     cache_of (fst (gstep Plain s (AddPolicy ps))) = cache_of s /\
     cache_of (fst (gstep Plain s (AddPolicies rules))) = cache_of s.
   Proof. intros. cbn [step]. now rewrite !with_u_cache. Qed.
+  (* ------------------------------ transparency from an empty cache ------------------ *)
+
+  (* a state whose cache is empty is reached from NewCachedEnforcer by two flag calls *)
+  Lemma empty_cache_reached : forall v (s : state U), cache_of s = [] ->
+    s = grun v (init (ust s)) [EnableCache (enabled s); SetExpireTime (expire s)].
+  Proof. intros v [u c en ex] H. cbn in H. subst c. reflexivity. Qed.
+
+  (* transparent, started in ANY state whose cache is empty *)
+  Lemma transparent_from_empty : forall v (s : state U) h r now,
+    cache_of s = [] ->
+    Forall (respects_for uenforce ustep v r) h -> no_collision h r ->
+    snd (gstep v (grun v s h) (Enforce now r)) = out_of_u (uenforce (ust (grun v s h)) r).
+  Proof.
+    intros v s h r now C R NC.
+    pose proof (empty_cache_reached v s C) as E.
+    remember [EnableCache (M:=M) (enabled s); SetExpireTime (expire s)] as pre eqn:Hpre.
+    remember (ust s) as u eqn:Hu. rewrite E, <- run_app.
+    apply transparent.
+    - apply Forall_app. split; [|exact R]. subst pre.
+      constructor; [apply respects_nonmutating; exact I|].
+      constructor; [apply respects_nonmutating; exact I|constructor].
+    - intros t r' Hin K. apply in_app_or in Hin. destruct Hin as [Hin|Hin].
+      + subst pre. destruct Hin as [X|[X|[]]]; discriminate X.
+      + now apply (NC t).
+  Qed.
+
+  (* ... in particular after InvalidateCache / LoadPolicy / ClearPolicy, from any state: only
+     the operations SINCE the last full invalidation matter *)
+  Lemma transparent_since_invalidation : forall v (s0 : state U) o h r now,
+    o = InvalidateCache \/ o = LoadPolicy \/ o = ClearPolicy ->
+    Forall (respects_for uenforce ustep v r) h -> no_collision h r ->
+    snd (gstep v (grun v (fst (gstep v s0 o)) h) (Enforce now r)) =
+    out_of_u (uenforce (ust (grun v (fst (gstep v s0 o)) h)) r).
+  Proof.
+    intros v s0 o h r now Ho R NC. apply transparent_from_empty; [|exact R|exact NC].
+    now apply invalidation_complete.
+  Qed.
+
+  Lemma quiet_respects : forall v r h, forallb quiet h = true ->
+    Forall (respects_for uenforce ustep v r) h.
+  Proof.
+    intros v r h H. rewrite forallb_forall in H. apply Forall_forall. intros o Hin.
+    specialize (H o Hin). apply respects_nonmutating. destruct o; try discriminate H; exact I.
+  Qed.
+
+  (* transparent_quiet: NO hypothesis on the underlying enforcer and none on the kind of
+     request (EnforceContext, CacheableParam, ...): while no mutator is called, the wrapper
+     answers what the embedded enforcer answers, provided no other request asked in that
+     stretch has the same key *)
+  Lemma transparent_quiet : forall v (s : state U) h r now,
+    cache_of s = [] -> forallb quiet h = true -> no_collision h r ->
+    snd (gstep v (grun v s h) (Enforce now r)) = out_of_u (uenforce (ust (grun v s h)) r).
+  Proof.
+    intros v s h r now C Q NC. apply transparent_from_empty; [exact C| |exact NC].
+    now apply quiet_respects.
+  Qed.
+
+  Definition reqs_ctx (h : list (op M)) : bool :=
+    forallb (fun o => match o with Enforce _ r' => ctx_req r' | _ => true end) h.
+
+  Lemma ctx_no_collision : forall (h : list (op M)) r,
+    reqs_ctx h = true -> ctx_req r = true -> no_collision h r.
+  Proof.
+    intros h r Hh Hr t r' Hin E. unfold reqs_ctx in Hh. rewrite forallb_forall in Hh.
+    specialize (Hh _ Hin). cbn in Hh. now apply key_injective_ctx.
+  Qed.
+
+  (* transparent_ctx: requests made of strings and EnforceContext values inside the key guards;
+     from NewCachedEnforcer / after a full invalidation, while no mutator is called, every
+     answer of the wrapper is the answer of the embedded enforcer.  In particular a context
+     never receives the decision cached for a context that differs in one name, nor the one of
+     the plain request with the same strings. *)
+  Lemma transparent_ctx : forall v (s : state U) h r now,
+    cache_of s = [] -> forallb quiet h = true -> reqs_ctx h = true -> ctx_req r = true ->
+    snd (gstep v (grun v s h) (Enforce now r)) = out_of_u (uenforce (ust (grun v s h)) r).
+  Proof.
+    intros v s h r now C Q Hh Hr. apply transparent_quiet; [exact C|exact Q|].
+    now apply ctx_no_collision.
+  Qed.
 End Generic.
+Arguments reqs_ctx {M}.
 
 (* ------------------------------------------------------------------------------------ *)
 (* The ACL fixture satisfies the hypothesis of `transparent`                              *)
@@ -914,4 +1157,195 @@ Lemma w_history_ok : forall v,
   map (fun n => snd (acl_run_step v (run acl_enforce acl_step v (acl_init w_pol) (firstn n w_history))
                                   (nth n w_history InvalidateCache))) [0; 1; 3; 7; 10; 12]
   = [ODec true false; ODec true false; ODec false false; ODec false false; ODec true false; ODec false false].
+Proof. intros []; vm_compute; auto. Qed.
+
+(* ------------------------------------------------------------------------------------ *)
+(* The fixture with several sections: cx_...                                               *)
+(* ------------------------------------------------------------------------------------ *)
+
+Lemma prefix3_fields : forall rv rule, List.length rv = 3 -> List.length rule = 3 ->
+  prefix_match 3 rv rule = fields_match rv rule.
+Proof.
+  intros [|a [|b [|c [|d rv]]]] [|x [|y [|z [|w rule]]]] H1 H2; try discriminate H1; try discriminate H2.
+  cbn [prefix_match fields_match]. now rewrite andb_true_r.
+Qed.
+
+Lemma prefix3_empty : forall rv, List.length rv = 3 -> prefix_match 3 rv [""; ""; ""] = all_empty rv.
+Proof.
+  intros [|a [|b [|c [|d rv]]]] H; try discriminate H. cbn [prefix_match all_empty forallb].
+  reflexivity.
+Qed.
+
+Lemma cx_scan_acl : forall pol rv, List.length rv = 3 ->
+  cx_scan AllowOverride 3 pol rv = acl_scan pol rv.
+Proof.
+  intros pol rv L. induction pol as [|rule rest IH]; cbn [cx_scan acl_scan]; [reflexivity|].
+  destruct (Nat.eqb (List.length rule) 3) eqn:A; cbn [negb]; [|reflexivity].
+  apply Nat.eqb_eq in A. rewrite (prefix3_fields rv rule L A), IH. reflexivity.
+Qed.
+
+Lemma cx_default_is_acl : forall st rv,
+  cx_eval st "r" "p" "e" "m" rv =
+  if negb (Nat.eqb (List.length rv) 3) then None else acl_dec (policy (cx_p st)) rv.
+Proof.
+  intros st rv. unfold cx_eval. cbn [cx_matchers cx_matcher String.eqb Ascii.eqb Bool.eqb cx_policy cx_effect cx_known_r orb andb negb].
+  destruct (Nat.eqb (List.length rv) 3) eqn:L; cbn [negb]; [|reflexivity].
+  apply Nat.eqb_eq in L. unfold acl_dec. destruct (policy (cx_p st)) as [|rule rest].
+  - now rewrite prefix3_empty.
+  - now apply cx_scan_acl.
+Qed.
+
+(* a request without a leading context, or with the default one, is decided exactly as by the
+   basic ACL model on the rules of "p": the rules of "p2" do not matter *)
+Lemma cx_plain_is_acl : forall st r,
+  match r with PCtx _ _ _ _ :: _ => False | _ => True end ->
+  cx_enforce st r = acl_enforce (cx_p st) r.
+Proof.
+  intros st r H. unfold cx_enforce, acl_enforce.
+  destruct r as [|p r]; [cbn [strip_ctx]; apply cx_default_is_acl|].
+  destruct p; try contradiction; cbn [strip_ctx]; apply cx_default_is_acl.
+Qed.
+
+Lemma acl_req_ok_noctx : forall r, acl_req_ok r = true ->
+  match r with PCtx _ _ _ _ :: _ => False | _ => True end.
+Proof. intros [|p r] H; [exact I|]. destruct p; try exact I. discriminate H. Qed.
+
+Definition cx_to_acl_op (o : cx_op) : acl_op :=
+  match o with
+  | Enforce now r => Enforce now r
+  | InvalidateCache => InvalidateCache
+  | LoadPolicy => LoadPolicy
+  | ClearPolicy => ClearPolicy
+  | RemovePolicy ps => RemovePolicy ps
+  | RemovePolicies rules => RemovePolicies rules
+  | AddPolicy ps => AddPolicy ps
+  | AddPolicies rules => AddPolicies rules
+  | EnableCache b => EnableCache b
+  | SetExpireTime d => SetExpireTime d
+  | Passthrough _ => InvalidateCache
+  end.
+
+(* the listed mutators act on the "p" part exactly as on the ACL fixture *)
+Lemma cx_step_p : forall v (s : state cx_state) (o : cx_op), cx_op_ok v o = true -> quiet o = false ->
+  o <> LoadPolicy -> o <> ClearPolicy ->
+  cx_p (ust (fst (step cx_enforce cx_step v s o))) =
+  ust (fst (step acl_enforce acl_step v
+             (mk_state (cx_p (ust s)) (cache_of s) (enabled s) (expire s)) (cx_to_acl_op o))).
+Proof.
+  intros v s o Ok Q NL NC.
+  destruct o; try discriminate Q; try contradiction; cbn [step cx_to_acl_op];
+    try (destruct v; try discriminate Ok); rewrite !with_u_ust; cbn [cx_step ust];
+    unfold cx_lift;
+    match goal with |- context [acl_step ?a ?b] => destruct (acl_step a b) end; reflexivity.
+Qed.
+
+Lemma cx_respects : forall v r (o : cx_op), acl_req_ok r = true -> cx_op_ok v o = true ->
+  respects_for cx_enforce cx_step v r o.
+Proof.
+  intros v r o Ok Oo.
+  destruct (quiet o) eqn:Q.
+  { apply respects_nonmutating. destruct o; try discriminate Q; exact I. }
+  intros s k b K NI Hs.
+  destruct o; try discriminate Q; try discriminate NI; try discriminate Oo.
+  all: pose proof (acl_req_ok_noctx r Ok) as NCx.
+  all: rewrite (cx_plain_is_acl (ust s) r NCx) in Hs.
+  all: rewrite (cx_plain_is_acl _ r NCx).
+  all: rewrite cx_step_p by (try assumption; try reflexivity; discriminate).
+  all: apply (acl_respects v r _ Ok) with (k := k); try assumption.
+Qed.
+
+(* transparent, instance for the fixture with several sections: plain requests (no leading
+   context) and listed mutators, as for the ACL fixture *)
+Lemma cx_transparent : forall v rules1 rules2 (h : list cx_op) r now,
+  forallb (cx_op_ok v) h = true -> acl_req_ok r = true -> no_collision h r ->
+  snd (cx_run_step v (run cx_enforce cx_step v (cx_init rules1 rules2) h) (Enforce now r)) =
+  out_of_u (cx_enforce (ust (run cx_enforce cx_step v (cx_init rules1 rules2) h)) r).
+Proof.
+  intros v rules1 rules2 h r now Hh Ok NC. unfold cx_run_step, cx_init. apply transparent; [|exact NC].
+  rewrite forallb_forall in Hh. apply Forall_forall. intros o Hin. apply cx_respects; auto.
+Qed.
+
+(* witnesses on the fixture with several sections *)
+Definition x_pol1 : list (list string) := [["alice"; "data1"; "read"]; ["bob"; "data2"; "write"]].
+Definition x_pol2 : list (list string) := [["alice"; "data1"; "write"]; ["carol"; "data2"; "read"]].
+Definition x_req (rt pt et mt a b c : string) : list param := [PCtx rt pt et mt; PStr a; PStr b; PStr c].
+Definition x_st : cx_state := mk_cx (mk_acl x_pol1 x_pol1) x_pol2 x_pol2.
+
+Definition cx_answers (v : variant) (h : list cx_op) (r : list param) : out * out :=
+  let s := run cx_enforce cx_step v (cx_init x_pol1 x_pol2) h in
+  (snd (cx_run_step v s (Enforce 0%Z r)), out_of_u (cx_enforce (ust s) r)).
+
+(* every one of the four names of the context influences what the embedded enforcer answers:
+   two contexts that differ in exactly that name answer differently for the same strings
+   (for RType and PType the other answer is necessarily an error: a matcher reads the tokens of
+   one request section and one policy section) *)
+Lemma cx_names_matter :
+  (cx_enforce x_st (x_req "r" "p" "e" "m" "alice" "data1" "write") = Some false /\
+   cx_enforce x_st (x_req "r" "p" "e" "m3" "alice" "data1" "write") = Some true) /\
+  (cx_enforce x_st (x_req "r" "p" "e" "m" "zed" "data1" "write") = Some false /\
+   cx_enforce x_st (x_req "r" "p" "e2" "m" "zed" "data1" "write") = Some true) /\
+  (cx_enforce x_st (x_req "r" "p" "e" "m" "alice" "data1" "read") = Some true /\
+   cx_enforce x_st (x_req "r" "p2" "e" "m" "alice" "data1" "read") = None /\
+   cx_enforce x_st (x_req "r" "p2" "e" "m5" "alice" "data1" "read") = Some false) /\
+  (cx_enforce x_st (x_req "r" "p" "e" "m" "alice" "data1" "read") = Some true /\
+   cx_enforce x_st (x_req "r2" "p" "e" "m" "alice" "data1" "read") = None /\
+   cx_enforce x_st (x_req "r2" "p" "e" "m6" "alice" "data1" "read") = Some true /\
+   cx_enforce x_st (x_req "r2" "p2" "e" "m4" "alice" "data1" "read") = Some false).
+Proof. vm_compute. repeat split; reflexivity. Qed.
+
+(* non-vacuity of transparent_ctx: contexts that differ in exactly one name each, the plain
+   request with the same strings, hits on the second round; inside every guard *)
+Definition x_history : list cx_op :=
+  [ Enforce 0%Z (x_req "r" "p" "e" "m" "alice" "data1" "write");
+    Enforce 1%Z (x_req "r" "p" "e" "m3" "alice" "data1" "write");
+    Enforce 2%Z (x_req "r" "p" "e2" "m" "alice" "data1" "write");
+    Enforce 3%Z (x_req "r" "p2" "e" "m" "alice" "data1" "write");
+    Enforce 4%Z (x_req "r2" "p" "e" "m" "alice" "data1" "write");
+    Enforce 5%Z [PStr "alice"; PStr "data1"; PStr "write"];
+    Enforce 6%Z (x_req "r" "p2" "e" "m5" "alice" "data1" "write");
+    Enforce 7%Z (x_req "r2" "p2" "e2" "m2" "zed" "data1" "write");
+    Enforce 8%Z (x_req "r" "p" "e" "m" "alice" "data1" "write");
+    Enforce 9%Z (x_req "r" "p" "e" "m3" "alice" "data1" "write");
+    Enforce 10%Z (x_req "r" "p" "e2" "m" "alice" "data1" "write");
+    Enforce 11%Z (x_req "r" "p2" "e" "m" "alice" "data1" "write") ].
+
+Lemma x_history_ok : forall v,
+  forallb quiet x_history = true /\ reqs_ctx x_history = true /\
+  map (fun n => snd (cx_run_step v (run cx_enforce cx_step v (cx_init x_pol1 x_pol2) (firstn n x_history))
+                                 (nth n x_history InvalidateCache))) (seq 0 12)
+  = [ODec false false; ODec true false; ODec true false; ODec false true; ODec false true;
+     ODec false false; ODec true false; ODec true false;
+     ODec false false; ODec true false; ODec true false; ODec false true].
+Proof. intros []; vm_compute; auto. Qed.
+
+(* outside the key guards (variant of F21): a request whose first STRING spells the key text of
+   a context is served the decision cached for that context instead of "invalid request size" *)
+Lemma ctx_string_stale_refuted : forall v,
+  let h := [Enforce 0%Z (x_req "r" "p" "e" "m" "alice" "data1" "read")] in
+  forallb quiet h = true /\
+  cx_answers v h [PStr "EnforceContext{r-p-e-m}"; PStr "alice"; PStr "data1"; PStr "read"]
+  = (ODec true false, ODec false true).
+Proof. intros []; vm_compute; auto. Qed.
+
+(* ... and so is a context one of whose names contains '-' (no section can have such a name,
+   so the underlying answer is an error) *)
+Lemma ctx_dash_stale_refuted : forall v,
+  let h := [Enforce 0%Z (x_req "r" "p" "e" "m-x" "alice" "data1" "read")] in
+  cx_answers v h (x_req "r" "p" "e-m" "x" "alice" "data1" "read") = (ODec false true, ODec false true) /\
+  get_key (x_req "r" "p" "e" "m-x" "alice" "data1" "read") = get_key (x_req "r" "p" "e-m" "x" "alice" "data1" "read").
+Proof. intros []; vm_compute; auto. Qed.
+
+(* a request with a context is outside cx_transparent: RemovePolicy of the rule with the same
+   strings is not an invalidation event for its key *)
+Lemma cx_ctx_request_stale_refuted : forall v,
+  let r := x_req "r" "p" "e" "m" "alice" "data1" "read" in
+  let h := [Enforce 0%Z r; RemovePolicy [PStr "alice"; PStr "data1"; PStr "read"]] in
+  forallb (cx_op_ok v) h = true /\ cx_answers v h r = (ODec true false, ODec false false).
+Proof. intros []; vm_compute; auto. Qed.
+
+(* a change of "p2" is no listed invalidation event: decisions of contexts that read "p2" go stale *)
+Lemma cx_p2_change_stale_refuted : forall v,
+  let r := x_req "r2" "p2" "e" "m4" "alice" "data1" "write" in
+  cx_answers v [Enforce 0%Z r; Passthrough (CxRemove2 ["alice"; "data1"; "write"])] r
+  = (ODec true false, ODec false false).
 Proof. intros []; vm_compute; auto. Qed.
